@@ -571,7 +571,7 @@ def run(ctx):
         raise MachineryError("model self-test: a normalize that keeps left_inds must violate ClaimSound")
     ctx.extra["model_selftest"] = "Tensor.normalize keeping left_inds on a rescaled tensor violates ClaimSound"
 
-    ncases, nsteps = (240, 3) if quick else (1500, 4)
+    ncases, nsteps = (240, 3) if quick else (6000, 5)
     dtypes = ["float64", "complex128", "float32", "complex64"]
     recs, names, imprecise, cases = [], {}, 0, []
     for k in range(ncases):
